@@ -143,7 +143,6 @@ int main() {
             r = doTo(trans("ucs4_" + a[1]), parseHex(a[3], 4), atoi(a[2].c_str()), true);
         else if (a.size() == 4 && a[0] == "u16from") {
             r = doFrom(trans("utf16_" + a[1]), parseHex(a[3], 2), atoi(a[2].c_str()), false);
-            if (r.compare(0, 3, "ok ") == 0) { size_t p = r.find(' ', 3); r = "ok " + r.substr(p + 1); }
         } else if (a.size() == 4 && a[0] == "u16to") {
             // the model's bound is in units; the API's in bytes
             r = doTo(trans("utf16_" + a[1]), parseHex(a[3], 4), 2 * atoi(a[2].c_str()), true);
@@ -160,10 +159,8 @@ int main() {
             r = t ? (t->canTranscodeTo((unsigned int)strtoul(a[2].c_str(), 0, 10)) ? "ok 1" : "ok 0") : "bad-request";
         } else if (a.size() == 3 && a[0] == "asciifrom") {
             r = doFrom(trans("ascii"), parseHex(a[2], 2), atoi(a[1].c_str()), false);
-            if (r.compare(0, 3, "ok ") == 0) { size_t p = r.find(' ', 3); r = "ok " + r.substr(p + 1); }
         } else if (a.size() == 3 && a[0] == "latin1from") {
             r = doFrom(trans("latin1"), parseHex(a[2], 2), atoi(a[1].c_str()), false);
-            if (r.compare(0, 3, "ok ") == 0) { size_t p = r.find(' ', 3); r = "ok " + r.substr(p + 1); }
         }
         else if (a.size() == 2 && a[0] == "probe") {
             std::vector<uint32_t> b = parseHex(a[1], 2);
